@@ -86,6 +86,19 @@ Theorem C11_kernels_generated : forall x a unlocked bank,
 Proof. intros. repeat split; first [apply gen_Spend|apply gen_Unspend|apply gen_AddLoss|apply gen_Withdraw|apply gen_WithdrawableUnlockedBalance]. Qed.
 Print Assumptions C11_kernels_generated.
 
+(* the split of a subaccount wager into a main-account part and a subaccount part is checked by the Go method
+   SubAccWagerTicketPayload.Validate (x/subaccount/types/ticket.go, generated on every run): the model's handler accepts exactly the
+   splits it accepts, and an accepted split takes between nothing and the stake from the subaccount - never more than the stake, which
+   would hand the (possibly still locked) difference to the owner's free balance (defect D13, repaired) *)
+Theorem C11_wager_parts_generated :
+  (forall md sd amount,
+     K_SubAccWagerTicketPayload_Validate {| G_SubAccWagerTicketPayload_MainaccDeductAmount := md; G_SubAccWagerTicketPayload_SubaccDeductAmount := sd |} amount
+     = wager_parts_ok md sd amount) /\
+  (forall s sg tk ic tk2 u a sm so ov mu al k ot md sd s',
+     sub_wager s sg tk ic tk2 u a sm so ov mu al k ot md sd = Some s' -> wager_parts_ok md sd a = true /\ 0 <= md /\ 0 <= sd <= a).
+Proof. split; [exact gen_wager_parts|exact sub_wager_parts]. Qed.
+Print Assumptions C11_wager_parts_generated.
+
 (* the amount a create / top-up message locks and the refusal of an unlock time before the block time ARE the keeper's sumLockedBalance
    (loop with an early error return), generated from x/subaccount/keeper/subaccount.go on every run *)
 Theorem C11_lock_sum_generated : forall now ls, K__sumLockedBalance now (map glb_of ls) = sum_locks now ls.
